@@ -50,8 +50,8 @@ CLAIMS = {
  "C15": dict(design="§2 C15", technique="typed-AST permutation-assignment rule (SWAP) + E-PROVE cell distinctness + E-EFF field-writer scan",
    text="Structural necessary condition, decided for all inputs: every store into the permutation iterators' state slices is an in-place permutation of cells, and only Next writes them, so every yielded value is a rearrangement of the initial multiset; iterator constructors keep no caller slice. Does not decide completeness, uniqueness or order.",
    note="Callers do not modify the slice returned by Value(); go/types + go/ssa faithful; E-EFF may-write summaries."),
- "C17": dict(design="§2 C17", technique="interprocedural effect/alias summaries on go/ssa (PURE, RECEIVER-ONLY) + typed-AST permutation rule (SWAP)",
-   text="Decides, for all inputs and histories, the sentence 'non-mutating functions leave their arguments untouched, mutators change only their receiver' (E-EFF write summaries), that results share no memory with arguments, and that ints.Sort only permutes its slice. Does not decide that the results are the right sets or that Sort orders.",
+ "C17": dict(design="§2 C17", technique="interprocedural effect/alias summaries on go/ssa (PURE, RECEIVER-ONLY) + typed-AST permutation rule (SWAP) + CFG/E-PROVE mark-and-count consistency rule (MARKCOUNT)",
+   text="Decides, for all inputs and histories, the sentence 'non-mutating functions leave their arguments untouched, mutators change only their receiver' (E-EFF write summaries), that results share no memory with arguments, that ints.Sort only permutes its slice, and that where Add marks cells of its scratch slice and counts them at several places the count equals the number of marks (each place knows the cell is unmarked). Does not decide that the results are the right sets or that Sort orders.",
    note="E-EFF is a sound may-write analysis within its model (no unsafe/reflect, stdlib effect table); append into spare capacity counts as a write."),
  "C19": dict(design="§2 C19", technique="whole-module effect analysis on go/ssa: global-state, goroutine/channel, read-only-query, retained-memory and close-on-all-paths rules",
    text="Race freedom by absence of shared mutable state, for all schedules at once: no function writes or leaks package-level memory, the module starts no goroutine and creates no channel, the named queries write nothing reachable from the shared value, constructors that keep caller memory are an explicit list and never write through it, AllMaximalCliques closes its channel on every path. Does not decide that shards partition the classes.",
